@@ -644,6 +644,13 @@ pub fn c03(tier: &str) -> Vec<Family> {
         }
     }
     fams.push(Family::new("small_sinks", TAGS_DELIVERY_SINKS, sc_k).cap(cap));
+    {
+        // Fans of 150 / 300 / 700 recipients on the real multi-threaded executor.
+        let big: Vec<Scenario> = [150usize, 300, 700].iter().map(|n| scn(format!("wide_fan/{}", n), &big_fan(*n, 0, false), vec![pe(0, 1, 1), pe(0, 1, 2)])).collect();
+        let tags_b: &'static [&'static str] = &["delivery_dup", "delivery_invented", "delivery_value", "delivery_lost", "init_missing", "report_exact", "error_class", "half_handler"];
+        fams.push(Family::new("wide_fans_mt2", tags_b, big.clone()).uncontrolled(2, 2).hang_violation());
+        fams.push(Family::new("wide_fans_mt4", tags_b, big).uncontrolled(4, 2).hang_violation());
+    }
     // Ports carrying the unit type and input / replier methods without arguments (a separate
     // bench with its own expected figures; on the single-threaded executor under every pick order).
     let trivial = Arc::new(BenchSpec::new(vec![NodeSpec::new("A", 1)]));
@@ -1129,6 +1136,23 @@ pub fn c07(tier: &str) -> Vec<Family> {
         let runs: Vec<Scenario> = cancelled_runs(&Arc::new(sp9)).into_iter().filter(|s| s.label.ends_with("/middle") || tier != "quick").collect();
         fams.push(Family::new("cancelled_runs", &["same_origin_order", "sched_missed", "sched_wrong_time"], runs).cap(cap));
     }
+    // Long same-time batches of one origin (20, 70 and 150 events; default schedule on one thread, real threads).
+    {
+        let k_node = NodeSpec::new("K", 4).script(1, vec![Op::ReadTime]);
+        let other = NodeSpec::new("W", 4).script(1, vec![Op::ReadTime]);
+        let lspec = Arc::new(BenchSpec::new(vec![k_node, other]));
+        let sc_long: Vec<Scenario> = [20usize, 70, 150]
+            .iter()
+            .map(|n| {
+                let mut cmds = vec![Sched { node: 1, kind: SKind::Once, when: When::Abs(1), tag: 1, val: 999, slot: 9 }];
+                cmds.extend((0..*n).map(|i| Sched { node: 0, kind: SKind::Once, when: When::Abs(1), tag: 1, val: i as i64, slot: 9 }));
+                cmds.push(Step);
+                scn(format!("long_batch/{}", n), &lspec, cmds)
+            })
+            .collect();
+        fams.push(Family::new("long_batches_st", &["same_origin_order", "sched_missed"], sc_long.clone()).uncontrolled(1, 1).hang_violation());
+        fams.push(Family::new("long_batches_mt2", &["same_origin_order", "sched_missed"], sc_long).uncontrolled(2, 3).hang_violation());
+    }
     // Absolute and relative deadlines for the same instant, at ordinary and at extreme start times.
     let alpha_e: Vec<Cmd> = vec![
         Sched { node: 0, kind: SKind::Once, when: When::Abs(2), tag: 1, val: 1, slot: 0 },
@@ -1262,8 +1286,27 @@ pub fn c08(tier: &str) -> Vec<Family> {
     let mut batches = family_named(c03(tier), "scheduler_batches");
     batches.tags = TAGS_SCHED;
     batches.hang_is_violation = true;
+    let mut sc_ct = vec![];
+    for kd in [SKind::Keyed, SKind::KeyedPeriodic(1)] {
+        for srcv in 0..2 {
+            for live_behind in [false, true] {
+                let keyed = if srcv == 0 {
+                    Cmd::Sched { node: 0, kind: kd, when: When::Abs(2), tag: 1, val: 5, slot: 0 }
+                } else {
+                    Cmd::SchedSrc { src: 0, kind: kd, when: When::Abs(2), tag: 1, val: 6, slot: 0 }
+                };
+                let mut cmds = vec![keyed];
+                if live_behind {
+                    cmds.push(Cmd::Sched { node: 0, kind: SKind::Once, when: When::Abs(2), tag: 1, val: 7, slot: 9 });
+                }
+                cmds.extend([Cmd::Cancel { slot: 0 }, Cmd::StepUntil(When::Abs(2)), Cmd::StepUntil(When::Abs(4))]);
+                sc_ct.push(scn(format!("cancelled_at_target/{:?}/v{}/live{}", kd, srcv, live_behind), &spec, cmds));
+            }
+        }
+    }
     vec![
         batches,
+        Family::new("cancelled_at_target", TAGS_SCHED, sc_ct).hang_violation(),
         Family::new("same_instant_mt2", TAGS_SCHED_BIG, mk_big(1)).uncontrolled(2, 2).hang_violation(),
         Family::new("same_instant_mt4", TAGS_SCHED_BIG, mk_big(3)).uncontrolled(4, 2).hang_violation(),
         Family::new("request_validation", TAGS_SCHED, sc).hang_violation(),
@@ -1456,7 +1499,27 @@ pub fn c09(tier: &str) -> Vec<Family> {
             ],
         ));
     }
+    // A long same-time batch: the cancelling event first, many others, the keyed event last.
+    let sc_lc: Vec<Scenario> = [20usize, 70]
+        .iter()
+        .flat_map(|n| {
+            let mk = |keyed: Cmd| {
+                let mut cmds = vec![Sched { node: 0, kind: SKind::Once, when: When::Abs(2), tag: 5, val: 3, slot: 9 }];
+                cmds.extend((0..*n).map(|i| Sched { node: 0, kind: SKind::Once, when: When::Abs(2), tag: 1, val: 100 + i as i64, slot: 9 }));
+                cmds.push(keyed);
+                cmds.push(Step);
+                cmds.push(Step);
+                cmds
+            };
+            vec![
+                scn(format!("long_cancel_batch/{}/keyed", n), &spec, mk(Sched { node: 0, kind: SKind::Keyed, when: When::Abs(2), tag: 1, val: 1, slot: 0 })),
+                scn(format!("long_cancel_batch/{}/keyed_periodic", n), &spec, mk(Sched { node: 0, kind: SKind::KeyedPeriodic(1), when: When::Abs(2), tag: 1, val: 2, slot: 0 })),
+            ]
+        })
+        .collect();
     vec![
+        Family::new("long_cancel_batches_st", &["cancel_ignored", "same_origin_order", "sched_missed"], sc_lc.clone()).uncontrolled(1, 1).hang_violation(),
+        Family::new("long_cancel_batches_mt2", &["cancel_ignored", "same_origin_order", "sched_missed"], sc_lc).uncontrolled(2, 2).hang_violation(),
         Family::new("cancelled_runs", TAGS_CANCEL_RUNS, cancelled_runs(&spec)).cap(cap),
         Family::new("auto_keys", &["cancel_ignored", "sched_missed", "sched_dup", "sched_wrong_time"], sc3).cap(cap),
         Family::new(
@@ -1581,6 +1644,17 @@ pub fn c10(tier: &str) -> Vec<Family> {
         out.push(Family::new("periodic_sources_multi", &["sched_missed", "sched_dup", "sched_wrong_time", "step_time", "sched_overdue", "handler_time", "cmd_time", "delivery_lost", "delivery_dup"], sc_m).cap(cap));
     }
     out.push(Family::new("far_future", &["sched_missed", "sched_dup", "sched_wrong_time", "step_time", "sched_overdue", "handler_time", "cmd_time"], far_future_scenarios(&spec)).cap(cap));
+    {
+        // 150 and 400 models, each with its own periodic series (distinct origins), on the real multi-threaded executor.
+        let many = |n: usize| -> Arc<BenchSpec> {
+            let nodes: Vec<NodeSpec> = (0..n).map(|i| NodeSpec::new(&format!("p{}", i), 2).init(vec![sched_self(SKind::Periodic(1), When::Rel(1), 2, 0)]).script(2, vec![Op::ReadTime])).collect();
+            Arc::new(BenchSpec::new(nodes))
+        };
+        let sc_m: Vec<Scenario> = [150usize, 400].iter().map(|n| scn(format!("many_series/{}", n), &many(*n), vec![Sched { node: 0, kind: SKind::Periodic(1), when: When::Rel(1), tag: 2, val: 5, slot: 0 }, Step, Step, StepUntil(When::Rel(1))])).collect();
+        let tags_m: &'static [&'static str] = &["sched_missed", "sched_dup", "sched_wrong_time", "step_time", "sched_overdue", "handler_time", "cmd_time", "init_missing", "report_exact", "error_class"];
+        out.push(Family::new("many_series_mt2", tags_m, sc_m.clone()).uncontrolled(2, 2).hang_violation());
+        out.push(Family::new("many_series_mt4", tags_m, sc_m).uncontrolled(4, 2).hang_violation());
+    }
     {
         // Cancelled (periodic) actions inside runs of same-time actions: no occurrence after the cancellation.
         let a9 = NodeSpec::new("A", 4).script(1, vec![Op::ReadTime]);
@@ -1707,6 +1781,7 @@ fn c11_scenarios(tier: &str, spec: &Arc<BenchSpec>, with_timeout: bool) -> Vec<S
     let follow: Vec<Cmd> = vec![
         Step,
         StepUntil(When::Rel(1)),
+        StepUntil(When::Rel(0)),
         pe(0, 1, 1),
         ProcQuery { node: 0, tag: 1, val: 1 },
         ProcSrc { src: 0, tag: 1, val: 1 },
@@ -2152,6 +2227,15 @@ pub fn c16(tier: &str) -> Vec<Family> {
             sc.push(scn(format!("init_overflow_query_back/cap{}/order{}", c, order), &Arc::new(BenchSpec::new(nodes)), vec![]));
         }
     }
+    {
+        // A sub-model registered under an empty name: "<parent>.<unknown>" in its context and in the reports.
+        let p = NodeSpec::new("top", 2).script(1, vec![send(0, 1)]).script(2, vec![send(0, 3)]).out(vec![to(1)]);
+        let ch = NodeSpec::new("", 2).parent(0).script(1, vec![Op::Panic(PanicKind::Str)]).script(3, vec![query(0, 4)]).req(vec![to(1)]);
+        let gc = NodeSpec::new("", 1).parent(1);
+        let spu = Arc::new(BenchSpec::new(vec![p, ch, gc]));
+        sc.push(scn("names/unnamed_child/panic", &spu, vec![pe(0, 1, 1)]));
+        sc.push(scn("names/unnamed_child/deadlock", &spu, vec![pe(0, 2, 1)]));
+    }
     sc.push(scn("names/panic", &spec, vec![pe(0, 1, 1)]));
     sc.push(scn("names/norecipient", &spec, vec![pe(2, 2, 1)]));
     sc.push(scn("names/deadlock", &spec, vec![pe(2, 3, 1)]));
@@ -2412,6 +2496,13 @@ pub fn c18(tier: &str) -> Vec<Family> {
         Family::new("clock_gating@-1s", TAGS_SYNC, thin).cap(5_000).epoch(-1),
         // Many models on the real multi-threaded executor: no init code before the start-time
         // synchronisation, no model code of a time step before its synchronisation.
+        {
+            // After a step timeout (the handler is still running on a worker) no further step is taken.
+            let mut f = family_named(c11(tier), "timeouts_mt");
+            f.name = "after_timeout_mt";
+            f.tags = &["term_result", "term_activity", "term_time", "sync_before_done", "sync_spurious"];
+            f
+        },
         Family::new("many_models_mt2", TAGS_SYNC_BIG, c18_big()).uncontrolled(2, 2).hang_violation(),
         Family::new("many_models_mt4", TAGS_SYNC_BIG, c18_big()).uncontrolled(4, 2).hang_violation(),
     ]
